@@ -64,6 +64,7 @@ def pure_cut(result, name=None, ignore_fields=()):
                 I.cut_log = []
             I.cut_log.append((fn.qual, memo[key]))
         return memo[key]
+    cut._replayable = True        # the native replay stubs the callee with the solver's values
     return cut
 
 
@@ -99,6 +100,7 @@ def rake_cut():
         I.cut_log.append(('pokerkit.utilities.rake#raked', raked))
         I.cut_log.append(('pokerkit.utilities.rake#unraked', unraked))
         return (raked, unraked)
+    cut._replayable = True        # the native replay stubs State.rake with the solver's values
     return cut
 
 
